@@ -277,7 +277,7 @@ impl Property for P {
             .boxed()
     }
     fn cases(&self, tier: Tier) -> u32 {
-        tier.pick(3000, 30000)
+        tier.pick(8000, 80000)
     }
     fn sweeps(&self, tier: Tier) -> Vec<(String, Vec<Case>)> {
         let mut cells = Vec::new();
